@@ -491,20 +491,34 @@ def mk_eigh(rel_eps, padded):
     A = T.opaque("A", (n, n))
     it.call_contracts["power_iteration"] = pi_contract(ctx)
     n_pow = len(ctx.ghost.setdefault("pow_calls", []))
+    n_con = len(ctx.ghost.setdefault("contractions", []))
     eps = spec.fresh_real("ridge_epsilon")
-    ctx.assume(eps > 0)
+    ctx.assume(eps >= 0)      # matrix_epsilon = 0 is an accepted configuration
     res, metrics = m.matrix_inverse_pth_root(A, p, ridge_epsilon=eps, relative_matrix_epsilon=rel_eps,
                                              padding_start=(T.asarray(ps) if padded else None), eigh=True)
     # definedness of the real power: x ** (-1/p) needs x > 0.  The eigenvalues returned by eigh are arbitrary reals here
-    # (round-off can make them slightly negative), so the routine itself must clamp the base.
-    k = spec.fresh_int("k_eig")
-    ctx.assume(sym.sand(k >= 0, k < n))
-    res.at((k, k))
-    pows = ctx.ghost["pow_calls"][n_pow:]
-    ctx.require(f"{Q}_eigh.some-power-is-taken", len(pows) >= 1)
-    for base, expo, site in pows:
-      ctx.oblige(f"{Q}_eigh.definedness: the base of every inverse p-th power is positive (ridge_epsilon > 0), whatever eigh returns",
-                 base > 0, detail=site)
+    # (round-off can make them slightly negative, a singular input with no ridge leaves zeros), so the routine itself must
+    # keep every undefined power out of the result: in each product that builds the root, a direction whose clamped
+    # eigenvalue is not positive contributes exactly 0, and with a positive ridge no base is non-positive at all.
+    i0, j0, k = spec.fresh_int("i_eig"), spec.fresh_int("j_eig"), spec.fresh_int("k_eig")
+    ctx.assume(sym.sand(i0 >= 0, i0 < n, j0 >= 0, j0 < n, k >= 0, k < n))
+    seen_pows = 0
+    for con in list(ctx.ghost["contractions"][n_con:]):
+      if len(con.contracted) != 1:
+        continue
+      n0 = len(ctx.ghost["pow_calls"])
+      try:
+        term = con.term_fn((i0, j0), (k,))
+      except Exception:  # pylint: disable=broad-except
+        continue
+      for base, expo, site in ctx.ghost["pow_calls"][n0:]:
+        seen_pows += 1
+        ctx.oblige(f"{Q}_eigh.definedness: a direction whose clamped eigenvalue is not positive contributes exactly 0 to the root "
+                   "(no undefined inverse power reaches the result), whatever eigh returns and also for ridge_epsilon = 0",
+                   sym.implies(base <= 0, term == 0), detail=site)
+        ctx.oblige(f"{Q}_eigh.definedness: the base of every inverse p-th power is positive (ridge_epsilon > 0), whatever eigh returns",
+                   sym.implies(eps > 0, base > 0), detail=site)
+    ctx.require(f"{Q}_eigh.some-power-is-taken", seen_pows >= 1)
     ctx.require(f"{Q}_eigh.post.shape", len(res.shape) == 2 and sym.prove(sym.sand(res.shape[0] == n, res.shape[1] == n)))
     err = metrics.inverse_pth_root_errors.item()
     ctx.oblige(f"{Q}_eigh.P3'.reported-error-is-non-negative (a max of absolute values)", err >= 0)
